@@ -35,6 +35,9 @@ KEYWORDS = {"true", "false", "and", "or", "in", "not", "contains", "nil", "null"
 RESERVED = KEYWORDS | {"empty", "blank"}
 
 
+_ENV: dict[str, Any] = {}
+
+
 class Unsupported(Exception):
     """The construct is outside the Coq model (template strings, ...)."""
 
@@ -162,6 +165,22 @@ def int_of_spelling(s: str) -> int:
     return -v if m.group(1) else v
 
 
+def survives_float(z: int) -> bool:
+    try:
+        return int(float(z)) == z
+    except OverflowError:
+        return False
+
+
+def int_literals_exact() -> bool:
+    """Does the implementation under test parse INT tokens without float()?"""
+    if "int_exact" not in _ENV:
+        from liquid2 import Environment
+        t = Environment().from_string("{{ 9007199254740993 }}")
+        _ENV["int_exact"] = t.render() == "9007199254740993"
+    return _ENV["int_exact"]
+
+
 def tok_path(t: Any) -> list:
     out = []
     for seg in t.path:
@@ -184,7 +203,13 @@ def tok_atom(t: Any) -> tuple | None:
     if ty == T.DOUBLE_QUOTE_STRING:
         return ("str", "DQ", t.value)
     if ty == T.INT:
-        return ("int", int_of_spelling(t.value))
+        z = int_of_spelling(t.value)
+        if int_literals_exact() and not survives_float(z):
+            # This tree parses INT tokens exactly (proposed_fixes/C20/0001); the
+            # model transcribes to_int(float(...)). Where the two differ the
+            # case is left to the oracle.
+            raise Unsupported("integer literal beyond 2**53 under exact INT parsing")
+        return ("int", z)
     if ty == T.FLOAT:
         return float_neutral(float(t.value))
     if ty == T.PATH:
@@ -399,9 +424,6 @@ KIND = {
     "loop": ("{%% for %s %%}", "print_loop", "parse_loop", "loopexpr_eq_dec", dump_loop, c_loop),
 }
 
-_ENV: dict[str, Any] = {}
-
-
 def plain_env() -> Any:
     """An environment that does not validate filter arguments at parse time
     (the model's parsers stop where Filter.parse stops)."""
@@ -563,6 +585,14 @@ def tag(token: Any, name: str, head: tuple = ("HNone",)) -> tuple:
     return ("tag", l, r, name, head)
 
 
+def _line_comment(item: tuple) -> tuple:
+    """Inside {% liquid %} the text of a comment runs to the end of the line or
+    tag; the blanks around it carry no meaning and a round trip may change them."""
+    if item[0] in ("comment", "bcomment"):
+        return item[:-1] + (item[-1].strip(),)
+    return item
+
+
 def dump_node(n: Any) -> list:  # noqa: PLR0911, PLR0912, PLR0915
     """The flat item sequence of one node, in the order its __str__ writes it."""
     cls = type(n).__name__
@@ -587,7 +617,7 @@ def dump_node(n: Any) -> list:  # noqa: PLR0911, PLR0912, PLR0915
     if cls == "LiquidNode":
         # Prints its tokens (outside the model): opaque text for the text
         # comparison, plus the nodes of its block for tree comparisons.
-        return [("text", str(n)), ("inner", dump_nodes(n.block.nodes))]
+        return [("text", str(n)), ("inner", [_line_comment(i) for i in dump_nodes(n.block.nodes)])]
     if cls == "AssignNode":
         return [tag(n.token, "assign", ("HAssign", str(n.name), dump_fexpr(n.expression)))]
     if cls == "EchoNode":
@@ -815,8 +845,30 @@ def gen_path_src(r: Any, depth: int, *, nested: bool = False) -> str:
     return out
 
 
+def gen_tstring_src(r: Any) -> str:
+    """A template string ('a${x | f}b'): outside the Coq model, exercised by
+    the oracle."""
+    q = r.choice("'\"")
+    parts = []
+    for _ in range(r.choice([1, 2, 3])):
+        if r.random() < 0.6:
+            parts.append(src_string(r, r.choice(["a", " b ", "it's", 'q"', "\\", "$", "${", "\n", "é"]))[1:-1]
+                         .replace(q, "\\" + q) if False else
+                         "".join("\\" + c if c in (q, "\\") else ("\\$" if c == "$" else ("\\n" if c == "\n" else c))
+                                 for c in r.choice(["a", " b ", "it's", 'q"', "\\", "$", "${x}", "\n", "é"])))
+        inner = gen_path_src(r, 1)
+        if r.random() < 0.5:
+            inner += " | " + r.choice(["upcase", "append: 'x'", 'append: "y"', "default: 'it\\'s'", "size"])
+        parts.append("${" + r.choice(["", " "]) + inner + r.choice(["", " "]) + "}")
+    if r.random() < 0.5:
+        parts.append(r.choice(["!", " end", ""]))
+    return q + "".join(parts) + q
+
+
 def gen_prim_src(r: Any, depth: int = 2, *, rng_ok: bool = True) -> str:
     k = r.random()
+    if k < 0.03 and rng_ok:
+        return gen_tstring_src(r)
     if k < 0.34:
         return gen_path_src(r, depth)
     if k < 0.52:
@@ -844,7 +896,10 @@ def gen_bool_src(r: Any, depth: int, *, minimal: bool | None = None) -> str:
             return ("p", gen_prim_src(r, 1))
         if k < 0.45:
             return ("n", tree(d - 1))
-        return ("b", r.choice(OPS), tree(d - 1), tree(d - 1))
+        # equality and logic never raise at render time; ordering and
+        # membership raise LiquidTypeError on many operand types
+        op = r.choice(OPS) if r.random() < 0.35 else r.choice(["==", "!=", "and", "or", "and", "or", "<>"])
+        return ("b", op, tree(d - 1), tree(d - 1))
 
     def show(t: Any, pp: int, left: bool, mini: bool) -> tuple[str, bool]:
         if t[0] == "p":
